@@ -357,6 +357,8 @@ def standin(tier, seed):
                 env.log.append(("native_returned", v))
             elif k == "ctx":
                 env.log.append(("ctx", var.get()))
+            elif k == "setctx":
+                var.set(op[1])
             elif k == "log":
                 env.log.append(("log", op[1]))
             elif k == "raise":
@@ -403,6 +405,8 @@ def standin(tier, seed):
                 env.log.append(("native_returned", v))
             elif k == "ctx":
                 env.log.append(("ctx", var.get()))
+            elif k == "setctx":
+                var.set(op[1])
             elif k == "log":
                 env.log.append(("log", op[1]))
             elif k == "raise":
@@ -454,6 +458,7 @@ def standin(tier, seed):
         [("raise", "immediately")],
         [("try", [("await_list", [0, 1])], [("await", 2)]), ("return", "z")],
         [("await", 0), ("await", 0)],
+        [("await", 0), ("setctx", "set-in-body"), ("moment", True), ("ctx",), ("await", 1), ("ctx",)],
     ]
     if tier != "quick":
         BODIES += [[("await", 2), ("try", [("await", 1), ("await", 0)], [("moment", True)]), ("native", 2)],
